@@ -692,6 +692,16 @@ def c18(run):
         p_ = lint_proj(r)
         return p_ if isinstance(p_, str) else [x for x in p_ if x['kind'] == 'boring']
     m, im = run.tie(reqs, proj=proj, functional=True, desc=lambda i: {'program': cases[i][1]})
+    # constant assignments whose VALUE starts on a later line than their target (a comment or a string key with a line break in
+    # between), in every assignment form: the line reported is where the value is
+    spread = []
+    for gap in ['(the\nchorus\ngoes here) ', '(a\nb) ', '(x) (y\n) ']:
+        spread += ['x is %s5\n' % gap, 'x is %s"lit"\n' % gap, 'put %s5 into x\n' % gap, 'put 5 %sinto x\n' % gap, 'let x be %s5\n' % gap, 'let x %sbe 5\n' % gap,
+                   'rock x with %s5\n' % gap, 'rock x %swith 5\n' % gap, "x's %s5\n" % gap, 'x %sis 5\n' % gap, 'say 1\nx is %s1 plus 2\nsay 2\n' % gap]
+    spread += ['x at "a\nb" is 5\n', 'put 5 into x at "a\nb"\n', 'let x at "a\n\nb" be 5\n', 'rock x at "a\nb" with 5\n', 'x at "a\nb" is "s"\n']
+    run.tie(['lint ' + hx(t) for t in spread], proj=proj, functional=True, desc=lambda i: {'program': spread[i], 'section': 'value on a later line than its target'})
+    for t in spread:
+        run.case(('spread', t), True, ndiags=1)
     follow, fmeta = [], []
     for (prog, src), r in zip(cases, im):
         if r is None:
